@@ -7,6 +7,8 @@ Line protocol of the Scm area (one output line per input line):
   new                                     -> new
   send http=L tls=L tcp=L udp=L           -> ok bytes=N fds=K | err send | unmodelled
         L = "-" or comma-separated addr@id (addr = SocketAddr::to_string, id = socket label)
+  sendraw http=A tls=A tcp=A udp=A fds=I   -> like send, manifest and descriptors chosen independently
+        A = "-" or comma-separated address texts (texts starting with "bad" do not parse), I = "-" or ids
   recv                                    -> ok http=L tls=L tcp=L udp=L | err receive|decode|count|addr | unmodelled
   drain                                   -> drained bytes=N fds=K
   ss-new BASE SLAB                        -> ss shutting=- slab=.. acks=[..] exited=0
@@ -66,8 +68,19 @@ structure St where
   ss : SoftStop.W := { base := 0, slab := 0 }
   hoIdle : Nat := 0
 
-/-- every address the harness can send comes from `SocketAddr::to_string` -/
-def parseOkAll : Addr → Bool := fun _ => true
+/-- `SocketAddr::from_str`: the harness only sends `SocketAddr::to_string` outputs, or,
+    in raw messages, strings starting with "bad" that no socket address parser accepts -/
+def parseOkAll : Addr → Bool := fun a => !(a.take 3 == [98, 97, 100])
+
+def parseAddrList (name w : String) : Option (List Addr) :=
+  match w.splitOn "=" with
+  | [n, l] => if n != name then none else if l == "-" then some [] else some ((l.splitOn ",").map strBytes)
+  | _ => none
+
+def parseFds (w : String) : Option (List Nat) :=
+  match w.splitOn "=" with
+  | ["fds", l] => if l == "-" then some [] else (l.splitOn ",").mapM String.toNat?
+  | _ => none
 
 def stepLine (st : St) (line : String) : St × List String :=
   match words line with
@@ -78,6 +91,12 @@ def stepLine (st : St) (line : String) : St × List String :=
       let (s', o) := step parseOkAll st.sock (.send { http := h, tls := t, tcp := c, udp := u })
       ({ st with sock := s' }, [showOut o])
     | _, _, _, _ => (st, ["bad-op"])
+  | ["sendraw", h, t, c, u, f] =>
+    match parseAddrList "http" h, parseAddrList "tls" t, parseAddrList "tcp" c, parseAddrList "udp" u, parseFds f with
+    | some h, some t, some c, some u, some f =>
+      let (s', o) := step parseOkAll st.sock (.sendRaw { http := h, tls := t, tcp := c, udp := u } f)
+      ({ st with sock := s' }, [showOut o])
+    | _, _, _, _, _ => (st, ["bad-op"])
   | ["recv"] =>
     let (s', o) := step parseOkAll st.sock .recv
     ({ st with sock := s' }, [showOut o])
